@@ -140,10 +140,16 @@ def specialise(body, extra):
     return b, fired, asserts
 
 
+def expand_includes(text):
+    def inc(m):
+        return open(os.path.join(VERUS_DIR, m.group(1))).read()
+    return re.sub(r"//@INCLUDE (\S+)", inc, text)
+
+
 def build_unit(unit, width):
     """Generate .gen/<unit>_<width>.rs from the template and today's /repo sources."""
     W, S, wb, sb = WIDTHS[width] if width else (None, None, None, None)
-    tmpl = open(os.path.join(VERUS_DIR, unit["template"])).read()
+    tmpl = expand_includes(open(os.path.join(VERUS_DIR, unit["template"])).read())
     report = []
     for slot, spec in unit["slots"].items():
         srcp = os.path.join(REPO, spec["file"])
